@@ -928,6 +928,13 @@ lys_compile_type_range(struct lysc_ctx *ctx, const struct lysp_restr *range_p, L
                 LY_CHECK_GOTO(ret = range_part_minmax(ctx, part, 1, part->min_64, basetype, 0, length_restr, frdigits, NULL, &expr), cleanup);
                 range_expected = 0;
             } else {
+                if (parts && (LY_ARRAY_COUNT(parts) != parts_done)) {
+                    /* the previous part was not finished by '|' */
+                    LOGVAL(ctx->ctx, LYVE_SYNTAX_YANG, "Invalid %s restriction - unexpected data (%s).",
+                            length_restr ? "length" : "range", expr);
+                    ret = LY_EVALID;
+                    goto cleanup;
+                }
                 LY_ARRAY_NEW_GOTO(ctx->ctx, parts, part, ret, cleanup);
                 LY_CHECK_GOTO(ret = range_part_minmax(ctx, part, 0, parts_done ? parts[LY_ARRAY_COUNT(parts) - 2].max_64 : 0,
                         basetype, parts_done ? 0 : 1, length_restr, frdigits, NULL, &expr), cleanup);
@@ -936,6 +943,13 @@ lys_compile_type_range(struct lysc_ctx *ctx, const struct lysp_restr *range_p, L
 
             /* continue with possible another expression part */
         } else if (!strncmp(expr, "max", ly_strlen_const("max"))) {
+            if (!range_expected && parts && (LY_ARRAY_COUNT(parts) != parts_done)) {
+                /* the previous part was not finished by '|' */
+                LOGVAL(ctx->ctx, LYVE_SYNTAX_YANG, "Invalid %s restriction - unexpected data (%s).",
+                        length_restr ? "length" : "range", expr);
+                ret = LY_EVALID;
+                goto cleanup;
+            }
             expr += ly_strlen_const("max");
             while (isspace(*expr)) {
                 expr++;
